@@ -242,10 +242,10 @@ def main(argv=None):
         hook = getattr(mods[mn], 'extra_checks', None)
         if hook is not None:
             extra += hook(pid, tier, seed)
-    return finish(pid, tier, seed, cfg, reports, extra, t0)
+    return finish(pid, tier, seed, cfg, reports, extra, t0, partial=ns.only is not None)
 
 
-def finish(pid, tier, seed, cfg, reports, extra, t0):
+def finish(pid, tier, seed, cfg, reports, extra, t0, partial=False):
     code = 0
     violations, known_lines, undecided, errors = [], [], [], []
     n_obl = n_dis = 0
@@ -364,7 +364,7 @@ def finish(pid, tier, seed, cfg, reports, extra, t0):
               wall_s=round(wall, 2), violations=len(violations))
     # development runs (--only <regex>, or PYVC_SCRATCH_EVIDENCE=1 set by tools/seedtest.sh while /repo carries a seeded change) must not
     # replace the record of the last full run on the real tree
-    sub = 'scratch' if (ns.only is not None or os.environ.get('PYVC_SCRATCH_EVIDENCE')) else ''
+    sub = 'scratch' if (partial or os.environ.get('PYVC_SCRATCH_EVIDENCE')) else ''
     os.makedirs(os.path.join(ROOT, 'evidence', sub), exist_ok=True)
     json.dump(ev, open(os.path.join(ROOT, 'evidence', sub, f'{pid}.json'), 'w'), indent=1)
     print(f"{pid} tier={tier}: functions={len(functions)} obligations={n_obl} discharged={n_dis} violations={len(violations)} known={len(known_lines)} undecided={len(undecided)} errors={len(errors)} wall={wall:.1f}s exit={code}")
